@@ -323,6 +323,11 @@ def flush (st : SSt) : SRes × SSt :=
   | (.sent _, st') => (.none, st')
   | other => other
 
+/-- `k` consecutive flush() calls (the caller's reaction to a Timeout from send) -/
+def flushN : Nat → SSt → SSt
+  | 0, st => st
+  | k + 1, st => flushN k (flush st).2
+
 inductive SOp where
   | send (data : Bytes)      -- also sendall
   | buffer (data : Bytes)
